@@ -157,7 +157,8 @@ fn run_gen_to_file(bindir: &str, name: &str, args: &[String], out_flag: Option<&
     let mut a: Vec<String> = args.to_vec();
     let mut inp = None;
     if let Some(content) = input_file {
-        let ip = dir.join(format!("{name}_{tag}.in"));
+        // a legal but unfriendly path: blanks, a double quote, formula syntax
+        let ip = if (tag / 8) % 2 == 0 { dir.join(format!("{name}_{tag}.in")) } else { dir.join(format!("{name} {tag} x\" -a & \".in")) };
         std::fs::write(&ip, content).map_err(|_| "(harness-io)".to_string())?;
         a.push(ip.display().to_string());
         inp = Some(ip);
@@ -288,7 +289,8 @@ pub fn real_queensbig(bindir: &str, n: usize) -> String {
         Ok(out) => {
             {
                 let mut rd = std::io::BufReader::new(&out[..]);
-                if rsbdd::parser::SymbolicBDD::tokenize(&mut rd, None).is_err() {
+                // (the real tokenizer takes minutes on tens of megabytes: boards above 400 are judged by line structure only)
+                if n <= 400 && rsbdd::parser::SymbolicBDD::tokenize(&mut rd, None).is_err() {
                     return "(not-a-formula)".into();
                 }
                 // anything that is not a comment, a constraint list line, the final `true` or blank makes it ill-formed
@@ -303,21 +305,92 @@ pub fn real_queensbig(bindir: &str, n: usize) -> String {
             let text = String::from_utf8_lossy(&out);
             let mut maxidx = 0u64;
             let mut count = 0u64;
+            let mut seen = std::collections::HashSet::new();
+            let mut odd_names = 0u64;
             for line in text.lines() {
                 if line.starts_with('[') {
                     count += 1;
-                    for tok in line.split(|c| c == ',' || c == '[' || c == ']') {
-                        if let Some(k) = tok.trim().strip_prefix("v_").and_then(|k| k.parse::<u64>().ok()) {
-                            maxidx = maxidx.max(k);
+                    let inner = line.trim_start_matches('[');
+                    let inner = inner.split(']').next().unwrap_or("");
+                    for tok in inner.split(',') {
+                        let t = tok.trim();
+                        if t.is_empty() {
+                            continue;
+                        }
+                        // a cell name is v_ followed by the decimal cell number without leading zeros
+                        match t.strip_prefix("v_").and_then(|k| k.parse::<u64>().ok()) {
+                            Some(k) if t == format!("v_{k}") => {
+                                maxidx = maxidx.max(k);
+                                seen.insert(k);
+                            }
+                            _ => odd_names += 1,
                         }
                     }
                 } else if line.trim() == "true" {
                     count += 1;
                 }
             }
-            format!("(ok {count} {maxidx})")
+            format!("(ok {count} {maxidx} {} {odd_names})", seen.len())
         }
     }
+}
+
+/// boards whose formula is too large to produce (tens of gigabytes): the first megabytes of the stream only, then the
+/// generator is stopped; every complete line must be a comment or a constraint list over names v_<k> with k < n*n
+pub fn real_queenshuge(bindir: &str, n: usize) -> String {
+    use std::io::Read;
+    use std::process::{Command, Stdio};
+    let mut child = match Command::new(format!("{bindir}/n_queens_gen")).args(["-n", &n.to_string()]).env("RUST_BACKTRACE", "0").stdin(Stdio::null()).stdout(Stdio::piped()).stderr(Stdio::piped()).spawn() {
+        Ok(c) => c,
+        Err(_) => return "(harness-io)".into(),
+    };
+    let mut so = child.stdout.take().unwrap();
+    let mut buf = vec![0u8; 6 << 20];
+    let mut got = 0usize;
+    while got < buf.len() {
+        match so.read(&mut buf[got..]) {
+            Ok(0) => break,
+            Ok(k) => got += k,
+            Err(_) => break,
+        }
+    }
+    drop(so);
+    let _ = child.kill();
+    let st = child.wait().ok();
+    let mut err = String::new();
+    if let Some(mut se) = child.stderr.take() {
+        let _ = se.read_to_string(&mut err);
+    }
+    if err.contains("panicked at") || st.and_then(|s| s.code()) == Some(101) {
+        return "(panic)".into();
+    }
+    if got < buf.len() {
+        return format!("(short-output {got})");
+    }
+    let text = String::from_utf8_lossy(&buf[..got]);
+    let lines: Vec<&str> = text.split('\n').collect();
+    let limit = (n as u128) * (n as u128);
+    for line in &lines[..lines.len() - 1] {
+        let l = line.trim();
+        if l.is_empty() || (l.starts_with('"') && l.ends_with('"')) {
+            continue;
+        }
+        if !(l.starts_with('[') && (l.ends_with("] <= 1 &") || l.ends_with("] = 1 &"))) {
+            return format!("(not-a-formula {})", l.chars().take(40).filter(|c| c.is_ascii_alphanumeric() || *c == '_' || *c == '-').collect::<String>());
+        }
+        let inner = l.trim_start_matches('[').split(']').next().unwrap_or("");
+        for tok in inner.split(',') {
+            let t = tok.trim();
+            if t.is_empty() {
+                continue;
+            }
+            match t.strip_prefix("v_").and_then(|k| k.parse::<u128>().ok()) {
+                Some(k) if k < limit && t == format!("v_{k}") => {}
+                _ => return format!("(not-a-formula name-{})", t.chars().take(24).filter(|c| c.is_ascii_alphanumeric() || *c == '_' || *c == '-').collect::<String>()),
+            }
+        }
+    }
+    "(ok-prefix)".into()
 }
 
 // ---------------------------------------------------------------------------------------------- sudoku
@@ -525,16 +598,24 @@ pub fn main(out: &mut Out, o: &Opts) {
                 for (n, r) in mid.iter().zip(res.iter()) {
                     out.emit("queenssols", &Sx::l(vec![Sx::n(n)]).show(), r);
                 }
-                let big: Vec<usize> = if o.thorough { vec![100, 255, 256, 257, 300, 400] } else { vec![255, 256, 300] };
+                // decimal-width boundaries of the cell number n*n-1 (5 -> 6 digits at n = 317, 6 -> 7 at n = 1000) and the u16 boundary of n
+                let big: Vec<usize> = if o.thorough { vec![100, 255, 256, 257, 300, 316, 317, 332, 400, 999, 1000, 1001, 1500] } else { vec![255, 256, 300, 316, 317, 400, 1000] };
                 let res = par_map(&big, |n| real_queensbig(&bindir, *n));
                 for (n, r) in big.iter().zip(res.iter()) {
                     out.emit("queensbig", &Sx::l(vec![Sx::n(n)]).show(), r);
+                }
+                // boards whose cell numbers pass 2^31 and 2^32 (n = 46341, 65535): the head of the stream only
+                let huge: Vec<usize> = vec![3163, 10000, 46340, 46341, 50000, 65535];
+                let res = par_map(&huge, |n| real_queenshuge(&bindir, *n));
+                for (n, r) in huge.iter().zip(res.iter()) {
+                    out.emit("queenshuge", &Sx::l(vec![Sx::n(n)]).show(), r);
                 }
             }
             "sudoku" => {
                 let mut cases: Vec<(usize, String)> = vec![];
                 // r = 1: every single character class; r = 2: all puzzles with <= 2 givens on a fixed layout, blanks of several kinds
-                for t in ["", "1", "0", "2", ".", "x", " 1", "1 ", "\n1\n", "11", ".1", "\"", "1\"", "9", "١", "\u{a0}1", "\u{2003}1\u{2003}"] {
+                for t in ["", "1", "0", "2", ".", "x", " 1", "1 ", "\n1\n", "11", ".1", "\"", "1\"", "9", "١", "\u{a0}1", "\u{2003}1\u{2003}",
+                          "\u{131}", "\u{2531}", "\u{2534}", "\u{10031}", "\u{ff11}", "\u{1d7cf}", "\u{feff}1", "1\r\n", "\u{131}1"] {
                     cases.push((1, t.to_string()));
                 }
                 let blanks = ['.', '0', '_', 'x', '-'];
@@ -571,7 +652,8 @@ pub fn main(out: &mut Out, o: &Opts) {
                     for i in 0..len {
                         let c = match rng.below(10) {
                             0 | 1 | 2 => char::from_digit(rng.below(10) as u32, 10).unwrap(),
-                            3 => *rng.pick(&['"', 'é', '#', '[', ']', ',']),
+                            // incl. characters whose code point ends in the byte of an ASCII digit (U+0131, U+2534, U+10032) and non-ASCII digits
+                            3 => *rng.pick(&['"', 'é', '#', '[', ']', ',', '\u{131}', '\u{2534}', '\u{2533}', '\u{2235}', '\u{10032}', '\u{ff12}', '\u{663}', '\u{1d7d0}']),
                             _ => *rng.pick(&blanks),
                         };
                         s.push(c);
@@ -613,6 +695,11 @@ pub fn main(out: &mut Out, o: &Opts) {
                 let tricky: Vec<String> = ["a", "v_a", "v_", "v__a", "b", "v_b", "x1"].iter().map(|s| s.to_string()).collect();
                 // names that differ only in case, a doubly prefixed name, names that are prefixes of one another
                 let cased: Vec<String> = ["a", "A", "b", "B", "x", "v__x", "ab"].iter().map(|s| s.to_string()).collect();
+                // vertex names that collide pairwise under FxHash (0/1, 2/3, 4/5, 6/7); falls back to plain names if none were found
+                let mut collp: Vec<String> = crate::stext::colliding_names(o.seed, 4).into_iter().flat_map(|(a, b)| [a, b]).collect();
+                if collp.len() < 7 {
+                    collp = plain.clone();
+                }
                 let mut cases: Vec<(Vec<String>, Vec<(usize, usize)>, bool, bool)> = vec![];
                 // all directed graphs on <= 3 vertices (loops excluded), all undirected on <= 4
                 for mask in 0u32..64 {
@@ -627,6 +714,8 @@ pub fn main(out: &mut Out, o: &Opts) {
                     cases.push((tricky.clone(), e.clone(), true, false));
                     cases.push((cased.clone(), e.clone(), true, false));
                     cases.push((cased.clone(), e.clone(), false, false));
+                    cases.push((collp.clone(), e.clone(), true, false));
+                    cases.push((collp.clone(), e.clone(), false, true));
                 }
                 // interleaved mentions of names equal up to case, and the doubly prefixed name next to its base name
                 for e in [vec![(0usize, 1usize), (1, 2), (0, 3)], vec![(0, 1), (1, 2), (2, 3), (3, 1), (0, 4)], vec![(4, 5)], vec![(4, 5), (5, 0), (0, 4)], vec![(1, 0), (0, 2), (1, 3), (0, 1)]] {
@@ -653,7 +742,7 @@ pub fn main(out: &mut Out, o: &Opts) {
                     if e.is_empty() {
                         continue;
                     }
-                    let names = if k % 3 == 0 { tricky.clone() } else if k % 3 == 1 { cased.clone() } else { plain.clone() };
+                    let names = if k % 4 == 3 { collp.clone() } else if k % 3 == 0 { tricky.clone() } else if k % 3 == 1 { cased.clone() } else { plain.clone() };
                     cases.push((names, e, rng.chance(1, 2), rng.chance(1, 3)));
                 }
                 {
@@ -668,6 +757,21 @@ pub fn main(out: &mut Out, o: &Opts) {
                         let order_sx = Sx::l(order.split_whitespace().map(Sx::a).collect());
                         let args = Sx::l(vec![Sx::l(vec![Sx::n(*u as u8), Sx::n(*all as u8)]), order_sx, edges_sx(e), Sx::l(names.iter().map(Sx::a).collect()), Sx::a("to-file")]);
                         out.emit("clique", &args.show(), res);
+                    }
+                }
+                {
+                    // the same through files, solved end to end (graphs with <= 4 vertices)
+                    let sel: Vec<(usize, &(Vec<String>, Vec<(usize, usize)>, bool, bool))> =
+                        cases.iter().enumerate().filter(|(i, (_, e, _, _))| i % 8 == 0 && e.iter().all(|(a, b)| *a < 4 && *b < 4)).collect();
+                    let res = par_map(&sel, |(i, (names, e, u, all))| {
+                        let (r, order) = real_clique_x(&bindir, names, e, *u, *all, true, Some(*i));
+                        format!("{}\u{1}{}", r, order.iter().map(|i| i.to_string()).collect::<Vec<_>>().join(" "))
+                    });
+                    for ((_, (names, e, u, all)), r) in sel.iter().zip(res.iter()) {
+                        let (res, order) = r.split_once('\u{1}').unwrap_or((r.as_str(), ""));
+                        let order_sx = Sx::l(order.split_whitespace().map(Sx::a).collect());
+                        let args = Sx::l(vec![Sx::l(vec![Sx::n(*u as u8), Sx::n(*all as u8)]), order_sx, edges_sx(e), Sx::l(names.iter().map(Sx::a).collect()), Sx::a("to-file")]);
+                        out.emit("cliquemodels", &args.show(), res);
                     }
                 }
                 for models in [false, true] {
@@ -761,6 +865,17 @@ pub fn main(out: &mut Out, o: &Opts) {
                     vec!["v1", "v10", "v2", "v20", "v3", "v30"],
                     vec!["a", "ab", "a_c1", "b", "b_", "_"],
                 ];
+                // names that collide pairwise under FxHash (crafted, see S-text/evalcoll): (0,1), (2,3), (4,5) collide
+                let coll: Vec<&'static str> = crate::stext::colliding_names(o.seed, 3)
+                    .into_iter()
+                    .flat_map(|(a, b)| [a, b])
+                    .map(|n| &*Box::leak(n.into_boxed_str()))
+                    .collect();
+                let mut pools = pools;
+                if coll.len() == 6 {
+                    pools.push(coll.clone());
+                    pools.push(vec![coll[0], coll[2], coll[1], "x", coll[3], "y"]);
+                }
                 let mut inputs: Vec<(Vec<(usize, usize)>, bool, Option<usize>, usize)> = vec![];
                 for mask in 1u32..64 {
                     let pairs = [(0, 1), (1, 0), (0, 2), (2, 0), (1, 2), (2, 1)];
@@ -790,7 +905,7 @@ pub fn main(out: &mut Out, o: &Opts) {
                     let (e, u, k, pool) = &inputs[*i];
                     let names = &pools[*pool];
                     let vid = |s: &str| names.iter().position(|n| *n == s);
-                    let path = dir.join(format!("g{i}.csv"));
+                    let path = if i % 3 == 0 { dir.join(format!("g{i} x\" -c & \".csv")) } else { dir.join(format!("g{i}.csv")) };
                     let csv: String = e.iter().map(|(a, b)| format!("{},{}\n", names[*a], names[*b])).collect();
                     let _ = std::fs::write(&path, csv);
                     let mut args: Vec<String> = vec!["--convert".into(), path.display().to_string()];
@@ -870,6 +985,7 @@ pub fn replay(op: &str, args: &Sx, bindir: &str) -> String {
     match op {
         "queens" => num(&a[0]).map(|n| real_queens(bindir, n)).unwrap_or("(harness-error)".into()),
         "queensbig" => num(&a[0]).map(|n| real_queensbig(bindir, n)).unwrap_or("(harness-error)".into()),
+        "queenshuge" => num(&a[0]).map(|n| real_queenshuge(bindir, n)).unwrap_or("(harness-error)".into()),
         "queenssols" => num(&a[0]).map(|n| real_queenssols(bindir, n)).unwrap_or("(harness-error)".into()),
         "sudoku" => {
             let r = num(&a[0]).unwrap_or(1);
@@ -882,7 +998,12 @@ pub fn replay(op: &str, args: &Sx, bindir: &str) -> String {
             let all = fl.get(1).and_then(|x| x.atom()) == Some("1");
             let edges: Vec<(usize, usize)> = a[2].list().unwrap_or(&[]).iter().filter_map(|e| { let l = e.list()?; Some((num(&l[0])?, num(&l[1])?)) }).collect();
             let names: Vec<String> = a.get(3).and_then(|x| x.list()).unwrap_or(&[]).iter().filter_map(|x| x.atom().map(|s| s.to_string())).collect();
-            real_clique(bindir, &names, &edges, u, all, op == "cliquemodels").0
+            if a.get(4).and_then(|x| x.atom()) == Some("to-file") {
+                // through files, under the unfriendly input path
+                real_clique_x(bindir, &names, &edges, u, all, op == "cliquemodels", Some(8)).0
+            } else {
+                real_clique(bindir, &names, &edges, u, all, op == "cliquemodels").0
+            }
         }
         _ => "(harness-replay-unsupported)".into(),
     }
